@@ -92,7 +92,7 @@ Fixpoint sched_pipe (own : list nat) (st : list (list call * nat)) : list actor 
       (App t :: Writer :: (match r with O => [App t] | _ => [] end) ++ sched_pipe own' (upd st t (prog, r)))%list
     | Some (cl :: rest, O) =>
       match cl with
-      | CBatch (_ :: _ :: _ as l) => App t :: App t :: Writer :: sched_pipe own' (upd st t (rest, pred (length l)))
+      | CBatch ((_ :: _ :: _) as l) => App t :: App t :: Writer :: sched_pipe own' (upd st t (rest, pred (length l)))
       | _ => App t :: Writer :: sched_pipe own' (upd st t (rest, O))
       end
     | _ => []
@@ -141,7 +141,7 @@ Fixpoint run_cops (w : world) (pipe : bool) (ops : list cop) (impl : trace) : tr
   end.
 
 Definition model_line (case impl : bytes) : bytes :=
-  render_trace (run_cops world0 false (parse_cline case) (parse_trace impl)).
+  render_trace (run_cops world0 false (parse_cline case) (fparse_trace impl)).
 
 End Run.
 
@@ -149,9 +149,9 @@ End Run.
 Definition is_digits (l : bytes) : bool := match l with [] => false | _ => forallb is_digit l end.
 
 Definition canon_tret (it : bytes) : bytes :=
-  match split_on 32 it with
+  match fsplit 32 it with
   | [_; t; l] =>
-    let rs := if beq l [45] then [] else split_on 44 l in
+    let rs := if beq l [45] then [] else fsplit 44 l in
     let bad := negb (forallb is_digits rs) in
     let sum := fold_left (fun a r => a + atoi_u r 0) rs 0 in
     ([84;82;69;84;32] ++ t ++ [32] ++ dec (N.of_nat (length rs)) ++ [32] ++ (if bad then [88] else dec sum))%list
@@ -166,7 +166,7 @@ Definition seq_text (h : bytes) : bytes :=
   end.
 
 Definition canon_conc (step : bytes) : bytes :=
-  let items := split_on 59 step in
+  let items := fsplit 59 step in
   let outs := filter (has_prefix [79;85;84;32]) items in
   let first := match outs with o :: _ => seq_text (skipn 4 o) | [] => [45] end in
   let last_ := match rev outs with o :: _ => seq_text (skipn 4 o) | [] => [45] end in
@@ -174,7 +174,7 @@ Definition canon_conc (step : bytes) : bytes :=
       if has_prefix [79;85;84;32] it then []
       else if has_prefix [84;82;69;84;32] it then (59 :: canon_tret it)
       else if has_prefix [83;84;79;82;69] it then
-        (59 :: [83;84;79;82;69;32] ++ dec (N.of_nat (Nat.div (pred (length (words it))) 2)))%list
+        (59 :: [83;84;79;82;69;32] ++ dec (N.of_nat (Nat.div (pred (length (fwords it))) 2)))%list
       else 59 :: it) items in
   ([67;79;78;67;32;79;85;84;32] ++ dec (N.of_nat (length outs)) ++ [32] ++ first ++ [32] ++ last_ ++ rest)%list.
 
@@ -182,9 +182,9 @@ Fixpoint canon_steps (ops : list bytes) (steps : list bytes) : list bytes :=
   match steps with
   | [] => []
   | st :: steps' =>
-    let is_conc := match ops with o :: _ => match words o with n :: _ => beq n k_CONC | [] => false end | [] => false end in
+    let is_conc := match ops with o :: _ => match fwords o with n :: _ => beq n k_CONC | [] => false end | [] => false end in
     (if is_conc then canon_conc st else st) :: canon_steps (tl ops) steps'
   end.
 
 Definition canon_line (case raw : bytes) : bytes :=
-  join [32;124;32] (canon_steps (split_on 124 case) (split_steps raw)).
+  join [32;124;32] (canon_steps (fsplit 124 case) (split_steps raw)).
